@@ -19,6 +19,12 @@ parameters are decimal integers (enum parameters by numeric value) between struc
                                              (Equals only when both Ok, else e- r- u-)
     CP   <Struct> <params…> <hexSrc> <hexDst>  -> "CP t<TryToCopyFrom> <hexDst'> <hexSrc'>"
     CPO  <Struct> <params…> <hexArena> <srcOff> <srcLen> <dstOff> <dstLen> -> "CP t<..> <hexArena'>"
+    TXT  <Struct> <params…> <opts> <hex>  -> "TXT o<ok> w<written> <hexText|-> u<0|1|-> <hexZeroed'>"
+              opts = base (2|d|x) then flags g (digit grouping) m (multiline, indent) c (comments)
+              p (allow_partial_output).  WriteToString runs iff the view is Ok or p is given (the
+              checked API: "text output with partial output allowed"); the produced text is then fed
+              to UpdateFromText on a zeroed buffer of the same size.
+    UPD  <Struct> <params…> <hexBuf> <hexText> -> "UPD u<0|1> <hexBuf'>"   UpdateFromText(arbitrary text)
     anything else -> "bad-op"
 
 OBS output grammar (space separated tokens):
@@ -202,6 +208,23 @@ template <class T> typename std::enable_if<std::is_integral<T>::value && !std::i
 template <class T> typename std::enable_if<std::is_floating_point<T>::value>::type PrintVal(Out &o, T x) {
   unsigned long long bits = 0; memcpy(&bits, &x, sizeof x); o << "f" << bits;
 }
+static bool ParseTextOptions(const std::string &s, ::emboss::TextOutputOptions *out) {
+  if (s.empty()) return false;
+  ::emboss::TextOutputOptions o;
+  if (s[0] == '2') o = o.WithNumericBase(2);
+  else if (s[0] == 'd') o = o.WithNumericBase(10);
+  else if (s[0] == 'x') o = o.WithNumericBase(16);
+  else return false;
+  for (size_t i = 1; i < s.size(); ++i) {
+    if (s[i] == 'g') o = o.WithDigitGrouping(true);
+    else if (s[i] == 'm') o = o.Multiline(true).WithIndent("  ");
+    else if (s[i] == 'c') o = o.WithComments(true);
+    else if (s[i] == 'p') o = o.WithAllowPartialOutput(true);
+    else return false;
+  }
+  *out = o;
+  return true;
+}
 static char H(const ::emboss::support::Maybe<bool> &m) { return !m.Known() ? 'U' : (m.ValueOrDefault() ? 'T' : 'F'); }
 
 template <class V> auto LeafComplete(const V &v, Out &o, int) -> decltype(v.IsComplete(), void()) { o << " c" << (v.IsComplete() ? 1 : 0); }
@@ -264,7 +287,7 @@ def equals_uninstantiable(p):
     return tainted
 
 
-ALL_FEATURES = ("obs", "obsa", "wr", "eq", "cp")
+ALL_FEATURES = ("obs", "obsa", "wr", "eq", "cp", "txt")
 DEFAULT_FEATURES = ("obs", "wr", "eq", "cp")
 
 
@@ -380,6 +403,39 @@ static std::vector<std::string> Split(const std::string &s) {
                      "      Heap h(raw);",
                      "      const auto v = %s;" % (mk % ("h.p", "h.n")),
                      '      o << "WR "; WrIn(v, t[%d], t[%d], o); o << " " << Hex(h.p, h.n);' % (b, b + 1),
+                     "      return o.str();",
+                     "    }"]
+        if "txt" in features:
+            disp += ['    if (op == "TXT") {',
+                     '      if (t.size() != %d) return "bad-op";' % (b + 2),
+                     HEX % ("raw", b + 1, "raw"),
+                     "      ::emboss::TextOutputOptions topt;",
+                     "      if (!ParseTextOptions(t[%d], &topt)) return \"bad-op\";" % b,
+                     "      Heap h(raw);",
+                     "      const auto v = %s;" % (mk % ("h.p", "h.n")),
+                     "      const bool ok = v.Ok();",
+                     '      o << "TXT o" << (ok ? 1 : 0);',
+                     "      if (ok || topt.allow_partial_output()) {",
+                     "        const std::string text = ::emboss::WriteToString(v, topt);",
+                     '        o << " w1 " << Hex(reinterpret_cast<const unsigned char *>(text.data()), text.size());',
+                     "        std::vector<unsigned char> zero(raw.size(), 0);",
+                     "        Heap hz(zero);",
+                     "        const auto vz = %s;" % (mk % ("hz.p", "hz.n")),
+                     "        const bool u = ::emboss::UpdateFromText(vz, text);",
+                     '        o << " u" << (u ? 1 : 0) << " " << Hex(hz.p, hz.n);',
+                     "      } else {",
+                     '        o << " w0 - u- -";',
+                     "      }",
+                     "      return o.str();",
+                     "    }",
+                     '    if (op == "UPD") {',
+                     '      if (t.size() != %d) return "bad-op";' % (b + 2),
+                     HEX % ("raw", b, "raw"), HEX % ("txt", b + 1, "txt"),
+                     "      Heap h(raw);",
+                     "      const auto v = %s;" % (mk % ("h.p", "h.n")),
+                     "      const std::string text(txt.begin(), txt.end());",
+                     "      const bool u = ::emboss::UpdateFromText(v, text);",
+                     '      o << "UPD u" << (u ? 1 : 0) << " " << Hex(h.p, h.n);',
                      "      return o.str();",
                      "    }"]
         if "eq" in features:
